@@ -58,7 +58,22 @@ def p_part(x):
     return InMemoryPartition({"a": payload(x), "b": [x, "b"]})
 
 
-FNS = dict(f_scalar=f_scalar, g_same=g_same, h_other=h_other, e_exc=e_exc, n_null=n_null, o_over=o_over, p_part=p_part)
+@memento_function(cluster="c8", version="1")
+def p_a(x):
+    REC.calls.append(("p_a", x))
+    return InMemoryPartition({"a1": payload(x), "a2": [x, "a2"], "a3": [x, "a3"]})
+
+
+@memento_function(cluster="c8", version="1")
+def p_b(x):
+    REC.calls.append(("p_b", x))
+    a = p_a(x)
+    b = InMemoryPartition({"b1": [x, "b1"], "a3": [x, "a3-over"]})
+    b._merge_parent = a          # merged on top of the partition returned by another memento function
+    return b
+
+
+FNS = dict(p_a=p_a, p_b=p_b, f_scalar=f_scalar, g_same=g_same, h_other=h_other, e_exc=e_exc, n_null=n_null, o_over=o_over, p_part=p_part)
 
 
 def expected(name, x):
@@ -71,6 +86,11 @@ def expected(name, x):
         return ["raise", "ValueError", "boom %d" % x]
     if name == "n_null":
         return ["none"]
+    if name == "p_a":
+        return ["partition", {"a1": ["bytes", payload(x).hex()[:40], len(payload(x))], "a2": ["list", [x, "a2"]], "a3": ["list", [x, "a3"]]}]
+    if name == "p_b":
+        return ["partition", {"a1": ["bytes", payload(x).hex()[:40], len(payload(x))], "a2": ["list", [x, "a2"]],
+                              "a3": ["list", [x, "a3-over"]], "b1": ["list", [x, "b1"]]}]
     if name == "p_part":
         return ["partition", {"a": ["bytes", payload(x).hex()[:40], len(payload(x))], "b": ["list", [x, "b"]]}]
 
@@ -84,5 +104,5 @@ def canon(v):
     if isinstance(v, list):
         return ["list", v]
     if isinstance(v, Partition):
-        return ["partition", {k: canon(v.get(k)) for k in v.list_keys()}]
+        return ["partition", {k: canon(v.get(k)) for k in sorted(v.list_keys())}]
     return ["other", repr(v)[:80]]
